@@ -102,6 +102,26 @@ func c16Ticket(c *Ctx) {
 	c.Check(di == "slice(encrypted,_,sub(len(encrypted),0x20))", rule, fname(d), "the MAC covers key name || IV || ciphertext", "", "HMAC input is "+di, d.Pos())
 	// layout agreement
 	lrule := "K-C16-layout"
+	if ei != "slice(encrypted,_,sub(len(encrypted),0x20))" && ebuf != nil {
+		// the same prefix written with other partial sums: encrypted[:macStart] with macStart = total - 32
+		if mk, isMk := ebuf.(*ssa.MakeSlice); isMk {
+			ebe := newBigEnv(e, namesOf(e))
+			if total, okT := ebe.linOf(mk.Len, mk, 0); okT {
+				for _, w := range callsNamedIn(e, "Write") {
+					if !w.Call.IsInvoke() {
+						continue
+					}
+					if sl, isSl := w.Call.Args[0].(*ssa.Slice); isSl && sl.X == ebuf && sl.Low == nil && sl.High != nil {
+						if hi, okH := ebe.linOf(sl.High, sl, 0); okH {
+							if d := total.add(hi, -1); len(d.coef) == 0 && d.k == 32 {
+								ei = "slice(encrypted,_,sub(len(encrypted),0x20))"
+							}
+						}
+					}
+				}
+			}
+		}
+	}
 	c.Check(strings.Contains(ek, "hmacKey") && ei == "slice(encrypted,_,sub(len(encrypted),0x20))", lrule, fname(e), "the issuing side MACs everything before the MAC with the first key's hmacKey", "", "encryptTicket: key "+ek+", input "+ei, e.Pos())
 	// slices of the ticket on both sides
 	layout := func(f *ssa.Function, buf ssa.Value) []string {
@@ -115,6 +135,39 @@ func c16Ticket(c *Ctx) {
 				}
 				if sl.High != nil {
 					hi = be.plain(sl.High, sl).String()
+				}
+				// a bound of a buffer made here with a known total length: as a constant, or as len - constant, whatever
+				// local names and partial sums it is written with (bodyStart, macStart := bodyStart+len(state), ...)
+				if mk, isMk := buf.(*ssa.MakeSlice); isMk {
+					if total, okT := be.linOf(mk.Len, mk, 0); okT {
+						rel := func(v ssa.Value, cur string) string {
+							if v == nil {
+								return cur
+							}
+							var lf linForm
+							if isLenOf(v, func(x ssa.Value) bool { return x == buf }) {
+								lf = total
+							} else if l2, ok2 := be.linOf(v, sl, 0); ok2 {
+								lf = l2
+							} else {
+								return cur
+							}
+							if len(lf.coef) == 0 {
+								if lf.k == 0 {
+									return "0"
+								}
+								return fmt.Sprintf("0x%x", lf.k)
+							}
+							if d := total.add(lf, -1); len(d.coef) == 0 && d.k >= 0 {
+								if d.k == 0 {
+									return "len"
+								}
+								return fmt.Sprintf("sub(len,0x%x)", d.k)
+							}
+							return cur
+						}
+						lo, hi = rel(sl.Low, lo), rel(sl.High, hi)
+					}
 				}
 				norm := func(s string) string {
 					s = strings.ReplaceAll(s, "len(encrypted)", "len")
